@@ -7,6 +7,7 @@ from __future__ import annotations
 import dataclasses
 import importlib.resources
 import re
+from copy import deepcopy
 from functools import lru_cache
 from typing import TextIO
 
@@ -148,7 +149,6 @@ class ScatteringParams:
         )
 
     @staticmethod
-    @lru_cache
     def for_isotope(isotope: str) -> ScatteringParams:
         """Return the scattering parameters for the given element / isotope.
 
@@ -163,6 +163,12 @@ class ScatteringParams:
         :
             Neutron scattering parameters.
         """
+        # The variables are mutable: never hand out the cached ones.
+        return deepcopy(ScatteringParams._for_isotope_cached(isotope))
+
+    @staticmethod
+    @lru_cache
+    def _for_isotope_cached(isotope: str) -> ScatteringParams:
         with _open_bundled_parameters_file('scattering_parameters.csv') as f:
             if line_remainder := _find_line_with_isotope(isotope, f):
                 return ScatteringParams._parse_line(isotope, line_remainder)
